@@ -22,7 +22,11 @@ explorers' by `propose` / `accept` / `revert`), and for every order in which Go'
                                        off the three written lists (a unit listed under TN but dropped under DN included);
 * `encodeable_sorted`, `encodeable_independent_of_map_order`   the written list is sorted by unit id, has each unit
                                        at most once, and does not depend on the map's iteration order;
-* `solution_variables_consistent`      all of it for `Solution.DecisionVariables` as the builder assembles it.
+* `solution_variables_consistent`      all of it for `Solution.DecisionVariables` as the builder assembles it;
+* `detail_cells_are_model_values`, `detail_value_eq_sum_cells`, `detail_tn_cells`, `detail_rows_are_model_rows`
+                                       the detail file (`…-NameMappedVariables.csv`): every row's planning-unit cells are the
+                                       model's per-unit values in the solution's unit order, `Value` = sum of the cells, the TN
+                                       row is the PN row plus the DN row cell by cell.
 
 Exact in ℚ (DESIGN 3.1); the tie to the Go code is the `enc` operation of the `catchment-walk` protocol (the real
 `MakeEncodeable` / `SolutionBuilder` on the walked model against `solutionVariables`, line by line) and the direct
@@ -146,6 +150,68 @@ theorem solution_variables_consistent {D : Data} (hU : UnitsOK D) (ops : List Ra
   obtain ⟨v, _, rfl⟩ := List.mem_map.mp he
   exact ⟨encodeable_value_is_total hU ops units v, encodeable_value_eq_sum_listed hU ops units hperm v,
     fun p hp => encodeable_unit_reads_model_value hU ops units hperm v p hp⟩
+
+/-! ## The detail file (`…-NameMappedVariables.csv`): one cell per planning unit of the solution -/
+
+/-- the cell `planningUnitValueList` writes for a unit is what a reader of the encoded variable finds for it -/
+theorem detail_cell_is_unit {D : Data} (hU : UnitsOK D) (s : State) (units : List PU)
+    (hperm : units.Perm (planningUnits D)) (v : VarId) (p : PU) :
+    unitLast (makeEncodeable units s v).perUnit p = (makeEncodeable units s v).unit p := by
+  rw [unitLast_eq_find (encodeable_sorted hU s units v hperm).2]
+  rfl
+
+/-- **the row of a variable in the detail file is the model's row**: cell by cell, in the order `pus` in which the
+solution lists its planning units (the model's `PlanningUnits()`: the row order of the sub-catchment table, which need
+not be the order of the variables' maps), the model's per-unit values (a unit the encodeable dropped is written 0, which
+is its value) -/
+theorem detail_cells_are_model_values {D : Data} (hU : UnitsOK D) (ops : List RawOp) (units pus : List PU)
+    (hperm : units.Perm (planningUnits D)) (hpus : ∀ p ∈ pus, p ∈ planningUnits D) (v : VarId) :
+    detailCells (makeEncodeable units (runRaw D ops) v) pus = pus.map (unitVal (runRaw D ops) v) := by
+  unfold detailCells
+  apply List.map_congr_left
+  intro p hp
+  rw [detail_cell_is_unit hU _ units hperm v p, encodeable_unit_reads_model_value hU ops units hperm v p (hpus p hp)]
+
+/-- **total = sum of unit shares, in the detail file**: the `Value` cell of every row equals the sum of the row's
+planning-unit cells (zeros included), whatever the order in which the solution lists the units -/
+theorem detail_value_eq_sum_cells {D : Data} (hU : UnitsOK D) (ops : List RawOp) (units pus : List PU)
+    (hperm : units.Perm (planningUnits D)) (hpus : pus.Perm (planningUnits D)) (v : VarId) :
+    (makeEncodeable units (runRaw D ops) v).value =
+      (detailCells (makeEncodeable units (runRaw D ops) v) pus).sum := by
+  rw [detail_cells_are_model_values hU ops units pus hperm (fun p hp => hpus.mem_iff.mp hp) v,
+    encodeable_value_is_total hU ops units v, sum_perm_rat (hpus.map _)]
+  exact (sumInv_of_any_history hU ops).total_eq_unitSum hU v
+
+/-- **total nitrogen = particulate + dissolved, in the detail file**: cell by cell -/
+theorem detail_tn_cells {D : Data} (hU : UnitsOK D) (ops : List RawOp) (units pus : List PU)
+    (hperm : units.Perm (planningUnits D)) (hpus : ∀ p ∈ pus, p ∈ planningUnits D) :
+    detailCells (makeEncodeable units (runRaw D ops) .tn) pus =
+      List.zipWith (· + ·) (detailCells (makeEncodeable units (runRaw D ops) .pn) pus)
+        (detailCells (makeEncodeable units (runRaw D ops) .dn) pus) := by
+  rw [detail_cells_are_model_values hU ops units pus hperm hpus, detail_cells_are_model_values hU ops units pus hperm hpus,
+    detail_cells_are_model_values hU ops units pus hperm hpus, List.zipWith_map_left, List.zipWith_map_right,
+    List.zipWith_self]
+  apply List.map_congr_left
+  intro p _
+  exact (aggregates_consistent_any_history hU ops).2.1 p
+
+/-- the whole file: six rows in name order, each with the model's total and the model's per-unit row -/
+theorem detail_rows_are_model_rows {D : Data} (hU : UnitsOK D) (ops : List RawOp) (units pus : List PU)
+    (hperm : units.Perm (planningUnits D)) (hpus : ∀ p ∈ pus, p ∈ planningUnits D) :
+    detailRows units pus (runRaw D ops) =
+      varsByName.map fun v => (v, total (runRaw D ops) v, pus.map (unitVal (runRaw D ops) v)) := by
+  unfold detailRows solutionVariables
+  rw [List.map_map]
+  apply List.map_congr_left
+  intro v _
+  show ((makeEncodeable units (runRaw D ops) v).id, (makeEncodeable units (runRaw D ops) v).value, _) = _
+  rw [detail_cells_are_model_values hU ops units pus hperm hpus v, encodeable_value_is_total hU ops units v]
+  rfl
+
+example :
+    let s := runRaw exData [.propose 0, .accept, .propose 1, .revert, .revert]
+    detailRows (planningUnits exData) (planningUnits exData).reverse s =
+      varsByName.map fun v => (v, total s v, (planningUnits exData).reverse.map (unitVal s v)) := by decide +kernel
 
 /-! Non-vacuity / sanity (tests, labelled as such) on the C01 dataset: a state after a misuse history, the map
 yielding the units backwards; a unit whose share is zero is dropped from the list and still read as 0. -/
